@@ -16,7 +16,7 @@ for pid in sorted(CHECKS):
         "engine": "gosx",
         "level_claimed": {"category": "other", "text": lv["text"], "design_ref": lv.get("design_ref", "DESIGN.md §2 " + pid)},
         "level_note": lv["note"],
-        "technique": "bounded symbolic execution of the real Go code (go/ssa) with SMT (z3 QF_BV/UF) deciding every branch, run-time check and assertion; counterexamples replayed natively",
+        "technique": "bounded symbolic execution of the real Go code (go/ssa) with SMT (z3 QF_BV/UF) deciding every branch, run-time check and assertion; counterexamples replayed natively" + lv.get("technique_suffix", ""),
     })
 m = {
     "version": 1,
